@@ -64,7 +64,34 @@ def pattern_arms(F, R, eng):
     pid = H.local_id(H.strip(m["scrut"]))
     # by role, not by name: the vector the pattern arms push their jump positions on, and the loop variable whose
     # `.patterns` the pattern loop iterates
-    vec_ids = sorted({H.local_id(H.strip(c["recv"])) for c in H.walk(m) if c.get("k") == "mcall" and c["m"] == "push" and H.local_id(H.strip(c["recv"])) is not None})
+    pushed = sorted({H.local_id(H.strip(c["recv"])) for c in H.walk(m) if c.get("k") == "mcall" and c["m"] == "push" and H.local_id(H.strip(c["recv"])) is not None})
+    # ... and of those, the one whose positions are patched right before the arm's body is compiled (jumps *to the body*):
+    # the `for p in V { patch_jump(p) }` statement that directly precedes the statement compiling `<arm>.body`
+    vec_ids = []
+    for blk in H.walk(b):
+        if blk.get("k") != "block":
+            continue
+        st = blk.get("stmts", [])
+        for i, s_ in enumerate(st):
+            e_ = s_.get("e") or s_.get("init")
+            if e_ is None or i == 0:
+                continue
+            is_body = any(c.get("k") in ("call", "mcall") and H.last(c.get("callee") or "") == "compile_block_statement" for c in H.walk(e_)) and \
+                not any(x.get("k") in ("loop",) for x in H.walk(e_))
+            if not is_body:
+                continue
+            for k_ in range(i - 1, -1, -1):
+                prev = st[k_].get("e") or st[k_].get("init") or {}
+                pm = H.strip(prev)
+                if pm.get("k") == "match" and pm.get("src", "").startswith("ForLoop") and pm["scrut"].get("k") == "call" and pm["scrut"].get("args"):
+                    if any(c.get("k") == "mcall" and c["m"] == "patch_jump" for c in H.walk(pm)):
+                        v_ = H.local_id(H.strip(pm["scrut"]["args"][0]))
+                        if v_ in pushed:
+                            vec_ids.append(v_)
+                    break
+    if not R.anchor("compile_match_expression: the jumps into the arm body are patched right before the body", len(set(vec_ids)) == 1):
+        return None
+    vec_ids = sorted(set(vec_ids))
     arm_ids = []
     for x in H.walk(b):
         if x.get("k") == "match" and x.get("src", "").startswith("ForLoop") and x["scrut"].get("k") == "call" and x["scrut"].get("args"):
